@@ -143,38 +143,76 @@ class Query:
         return self.enc.S.render(lines)
 
 
-def run_queries(queries, workdir, tier, jobs=4, cvc5_cap=120, z3_cap_quick=60, thorough_cap=1500, log=None):
-    """Decide every query with cvc5; cross-check with z3 where asked (quick) or everywhere (thorough).
-    Returns nothing; fills q.answers[solver] = Answer."""
+# cvc5 configurations raced on every query (all are the same solver; measured in README.md: the default
+# configuration needs 20 s .. 13 min on the round-trip query depending on incidental options, `--no-arith-brab`
+# 11..21 s). The first definite answer wins, the others are killed / never started.
+CVC5_PORTFOLIO = [("cvc5[no-arith-brab]", ["--no-arith-brab"]), ("cvc5[default]", []), ("cvc5[use-soi]", ["--use-soi"])]
+
+
+def run_queries(queries, workdir, tier, jobs=4, cvc5_cap=120, z3_cap_quick=60, thorough_cap=900, z3_cap_thorough=600, log=None):
+    """Decide every query with cvc5 (portfolio); cross-check with z3 where asked (quick) or everywhere (thorough).
+    Fills q.answers["cvc5"] and q.answers[<z3 name>]."""
+    import threading
     os.makedirs(workdir, exist_ok=True)
-    tasks = []
+    lock = threading.Lock()
+    cap = cvc5_cap if tier == "quick" else thorough_cap
+    stages = [[] for _ in range(len(CVC5_PORTFOLIO) + 1)]
     for q in queries:
         path = os.path.join(workdir, re.sub(r"[^A-Za-z0-9_.-]", "_", q.name) + ".smt2")
         with open(path, "w") as f:
             f.write(q.text())
         q.path = path
+        q.procs = []
+        q.tried = []
+        q.decided = False
+        for i, (label, args) in enumerate(CVC5_PORTFOLIO):
+            stages[i if i == 0 else i + 1].append((q, "cvc5", label, args, cap))
         if tier == "quick":
-            tasks.append((q, "cvc5", cvc5_cap))
             if q.fast_z3 and smt.have("z3"):
-                tasks.append((q, "z3", z3_cap_quick))
+                stages[1].append((q, "z3", "z3", [], z3_cap_quick))
         else:
-            tasks.append((q, "cvc5", thorough_cap))
             for z in ("z3", "z3-new"):
                 if smt.have(z):
-                    tasks.append((q, z, thorough_cap))
-    # longest first: cvc5 on the big queries
-    tasks.sort(key=lambda t: (0 if t[1] == "cvc5" else 1, -os.path.getsize(t[0].path)))
+                    stages[1].append((q, z, z, [], z3_cap_thorough))
+    tasks = []
+    for st in stages:
+        st.sort(key=lambda t: -os.path.getsize(t[0].path))
+        tasks += st
 
     def work(t):
-        q, solver, cap = t
-        a = smt.run_solver(solver, q.path, cap)
-        q.answers[solver] = a
+        q, solver, label, args, tcap = t
+        if solver == "cvc5":
+            with lock:
+                if q.decided:
+                    return
+        a = smt.run_solver(solver, q.path, tcap, extra_args=args, label=label,
+                           on_start=(lambda p: q.procs.append(p)) if solver == "cvc5" else None)
+        if solver != "cvc5":
+            q.answers[solver] = a
+        else:
+            with lock:
+                if a.status == "killed":
+                    return
+                q.tried.append(a)
+                if a.status in ("sat", "unsat") and not q.decided:
+                    q.decided = True
+                    q.answers["cvc5"] = a
+                    for p in q.procs:
+                        if p.poll() is None:
+                            smt.kill_proc(p)
         if log:
-            log("    %-34s %-7s %-8s %6.1fs" % (q.name, solver, a.status, a.wall))
-        return a
+            log("    %-38s %-20s %-8s %6.1fs" % (q.name, label, a.status, a.wall))
 
     with concurrent.futures.ThreadPoolExecutor(max_workers=max(1, jobs)) as pool:
         list(pool.map(work, tasks))
+    for q in queries:
+        if "cvc5" not in q.answers and q.tried:
+            # no configuration gave a definite answer: error dominates, then unknown, then timeout
+            order = {"error": 0, "unknown": 1, "timeout": 2}
+            q.answers["cvc5"] = sorted(q.tried, key=lambda a: order.get(a.status, 3))[0]
+        elif any(a.status == "error" for a in q.tried):
+            q.answers["cvc5"] = [a for a in q.tried if a.status == "error"][0]
+        q.cvc5_wall = sum(a.wall for a in q.tried)
 
 
 def verdict(queries):
@@ -185,7 +223,7 @@ def verdict(queries):
     secs = 0.0
     for q in queries:
         a = q.answers.get("cvc5")
-        secs += sum(x.wall for x in q.answers.values())
+        secs += getattr(q, "cvc5_wall", 0.0) + sum(x.wall for n, x in q.answers.items() if n != "cvc5")
         if a is None:
             status = "inconclusive"
             reasons.append("%s: not run" % q.name)
